@@ -6,7 +6,8 @@ import FeatherModel.Base.Sexp
 Model of `duke/src/tree/descriptor.rs` (`read_field_type`, `write_field_type`, the three `parse`s, the three
 `write`s, `get_arguments_size`, `FieldDescriptor::from_class`), of `duke/src/tree/mod.rs` `mod names` and of the
 checked newtypes built on it (`ClassName`, `ArrClassName`, `ObjClassName`, `FieldName`, `MethodName`, `ParameterName`,
-`LocalVariableName`), `ArrClassNameSlice::dimension`, `ObjClassNameSlice::get_simple_name`.
+`LocalVariableName`; the unchecked `FieldDescriptor` / `MethodDescriptor` / `ReturnDescriptor`),
+`ArrClassNameSlice::dimension`, `ObjClassNameSlice::get_simple_name`.
 
 Strings are `JStr = List Nat` (code points).  Every error of the Rust code is `none` (the correspondence prints
 `err e`); the two places where the Rust code can *panic* are modelled explicitly:
@@ -191,7 +192,7 @@ def parseReturn (s : JStr) : Option (Option Ty) :=
   | _ => none
 
 /-- the parameter `loop` of `MethodDescriptorSlice::parse`.  Every iteration consumes at least one character, so
-`fuel = s.length` suffices (`readParams_fuel` in `Lemmas/Descriptor.lean`). -/
+`fuel = s.length` suffices (`readParams_fuel` in `Lemmas/DescriptorParse.lean`). -/
 def readParams : Nat → JStr → Option (List Ty × JStr)
   | _, [] => none       -- read_field_type fails at the end of input
   | fuel, c :: rest =>
